@@ -177,6 +177,19 @@ def oracle(ctx, base, ops, v):
     fresh = FGc.vacate(root, sorted(v.vacancies))
     if not (fresh == v) or hash(fresh) != hash(v):
         fail("a value differs (== or hash) from the same underlying grid with the same vacancy set built directly")
+    # the index collections may be any iterable (lists, sets, one-shot iterators)
+    it1 = FGc.vacate(FGc.vacate(v, iter(a)), (c for c in b))
+    if not (it1 == one) or it1.vacancies != one.vacancies:
+        fail("vacate with a one-shot iterator of indices differs from vacate with the list of the same indices")
+    it2 = FGc.fill(FGc.fill(v, iter(a)), zip([c[0] for c in b], [c[1] for c in b]))
+    if not (it2 == f1) or it2.vacancies != f1.vacancies:
+        fail("fill with a one-shot iterator of indices differs from fill with the list of the same indices")
+    # equality across kinds: FilledGrid.__eq__ never equates a grid with vacancies with a plain grid, whose sites are a different
+    # set (the reflected `plain == filled` is answered by bloqade.geometry's SubGrid.__eq__, outside this repository)
+    if v.vacancies:
+        for other in (root, getattr(v, "parent", root)):
+            if v == other:
+                fail("a filled grid with vacancies compares equal to a plain grid", mixed=type(other).__name__)
     # transforms act on the underlying grid only
     sh = v.shift(1.5, -2.0)
     if root_of(sh) != root.shift(1.5, -2.0) or sh.vacancies != v.vacancies:
